@@ -122,6 +122,17 @@ func boundedJobs(r *runner.Run, emit func(job) bool) bool {
 			if be == "memory" {
 				max = l.memory
 			}
+			if cf.Pressure && max < 5 {
+				// the pressure limit needs a retained (acked) message next to a queued one on a full queue: the two
+				// shortest ways there are four operations long; continue from them by one more operation
+				for _, fl := range []string{flowHG, flowGH} {
+					for _, pre := range [][]string{{"I", "I", "D", "A"}, {"I", "D", "I", "A"}} {
+						if !emit(job{Backend: be, Flow: fl, Hist: &hist{Conf: cf, Ops: pre, MaxLen: 5}}) {
+							return false
+						}
+					}
+				}
+			}
 			for _, fl := range flows {
 				for _, first := range []string{"I", "P1", "P2", "P3", "Bdup"} { // every other operation is a no-op on an empty queue
 					if !emit(job{Backend: be, Flow: fl, Hist: &hist{Conf: cf, Ops: []string{first}, MaxLen: max}}) {
@@ -339,7 +350,7 @@ func (h *histRun) fullAndEvictable() (full, evictable bool) {
 			all++
 		}
 	}
-	full = active >= h.q.Depth || (h.q.Retention && all >= h.q.Depth)
+	full = active >= h.q.Depth || (h.q.Retention && h.backend == "memory" && all >= h.q.Depth) // docs: the memory backend also guards queued+leased+delivered
 	return full, evictable
 }
 
